@@ -68,6 +68,15 @@ CHECKS["C17"] = dict(
        "(Go map iteration) is observed by a probe call, then fixed in the model.",
   technique="Coq proof (list induction) + differential correspondence over fakes", design="6/C17")
 
+CHECKS["C13"] = dict(
+  text="Coq theorems: the key-table specification never changes or removes a stored row, Store reports true exactly when the (id, created) was absent and the row then reads back intact, "
+       "LoadLatest returns the greatest creation time; the DynamoDB-style adapter model over a backend with arbitrary staleness and overwriting puts refines the specification for EVERY operation "
+       "sequence and EVERY staleness oracle because it asks for strong consistency, a conditional put and a backward scan (and a witness shows each flag is necessary). Tie: the in-memory, SQL "
+       "(3 placeholder dialects) and both DynamoDB metastores run over semantic fakes and are compared with the specification inside Coq on random overlapping sequences.",
+  note="Trusted: Coq kernel+VM, closed under the global context. Modelled not verified: real SQL engines and DynamoDB (the Go fakes implement their documented semantics adversarially: stale unless "
+       "ConsistentRead, overwrite unless conditional, placeholder style enforced, PRIMARY KEY(id, created)).",
+  technique="Coq proof (spec lemmas + refinement by induction over operations) + differential correspondence over semantic fakes", design="6/C13")
+
 NOT_APPLICABLE = []
 
 
